@@ -322,7 +322,40 @@ class Flow:
         IN = {n.id: {} for n in cfg.nodes}
         OUT = {n.id: {} for n in cfg.nodes}
 
+        def none_free(nid, inset, label):
+            """behind `if x is None: <leave>` (on the edge on which x is known not to be None) the definitions `x = None` do
+            not reach: a result that is a value or None, tested before it is used"""
+            node = cfg.nodes[nid]
+            if node.kind != "if" or label not in ("T", "F"):
+                return inset
+            t = node.ast.test
+            neg = False
+            if isinstance(t, ast.UnaryOp) and isinstance(t.op, ast.Not):
+                t, neg = t.operand, True
+            name, edge = None, None
+            if isinstance(t, ast.Compare) and len(t.ops) == 1 and isinstance(t.left, ast.Name) and isinstance(t.comparators[0], ast.Constant) and \
+                    t.comparators[0].value is None and isinstance(t.ops[0], (ast.Is, ast.IsNot)):
+                name = t.left.id
+                edge = "F" if isinstance(t.ops[0], ast.Is) else "T"
+            elif isinstance(t, ast.Name):
+                name, edge = t.id, "T"
+            if name is None or name not in inset:
+                return inset
+            if neg:
+                edge = "F" if edge == "T" else "T"
+            if label != edge:
+                return inset
+            ids = inset[name]
+            keep = frozenset(i for i in ids if not (self.defs[i].kind == "assign" and not self.defs[i].path and
+                                                    isinstance(self.defs[i].value, ast.Constant) and self.defs[i].value.value is None))
+            if not keep or keep == ids:
+                return inset
+            out = dict(inset)
+            out[name] = keep
+            return out
+
         def transfer(nid, inset, label):
+            inset = none_free(nid, inset, label)
             gens = self.gen[nid]
             if not gens:
                 return inset
